@@ -5,6 +5,7 @@ import (
 	"go/ast"
 	"go/types"
 	"sort"
+	"strings"
 )
 
 // numberLoops assigns ordinals (1-based, source order) to the loops of a function body.
@@ -152,6 +153,10 @@ func (vc *VC) havocFor(st *State, ms modSet, ls *LoopSpec, entry *State) *State 
 // frameFact: forall r. r < alloc && r not in targets => new[r] = old[r]
 func frameFact(newH, oldH string, targets []string, alloc string) string {
 	conds := []string{"(< r!f " + alloc + ")"}
+	if strings.HasPrefix(newH, "G$") {
+		// ghost heaps are keyed by arbitrary integers (e.g. interface payloads): no allocation guard
+		conds = nil
+	}
 	for _, t := range targets {
 		conds = append(conds, not(t))
 	}
@@ -213,6 +218,9 @@ func (vc *VC) checkFrame(st, from *State, writes []*Clause, kind, where string, 
 			continue
 		}
 		conds := []string{"(< r!f " + from.alloc + ")", "(<= 0 r!f)"}
+		if strings.HasPrefix(h, "G$") {
+			conds = nil
+		}
 		for _, t := range targets[h] {
 			conds = append(conds, not(t))
 		}
@@ -276,15 +284,24 @@ func (vc *VC) execFor(st *State, x *ast.ForStmt, label string) []*State {
 }
 
 // anchors applies `assert @anchor: e` / `assume @anchor: e` clauses to the given states.
-func (vc *VC) anchors(sts []*State, anchor string, lentry *State) {
+func (vc *VC) anchors(sts []*State, anchor string, lentry *State, extra ...map[string]Term) {
 	for _, c := range vc.spec.Asserts {
 		if c.Name != anchor {
+			continue
+		}
+		if vc.dry > 0 {
+			vc.usedAnchors[anchor] = true
 			continue
 		}
 		vc.usedAnchors[anchor] = true
 		for _, s := range sts {
 			env := vc.specEnv(s, vc.entry)
 			env.lentry = lentry
+			for _, ex := range extra {
+				for k, v := range ex {
+					env.vars[k] = v
+				}
+			}
 			g := env.evalBool(c.Expr)
 			if c.Kind == "assert" {
 				vc.oblige(s, "assert@"+anchor, c.Text, c.Where, g, c.Props)
